@@ -12,7 +12,7 @@ LEAN_MODULES = ["Econf.Props.C14", "Econf.Props.Struct"]
 THEOREMS = ["Econf.C14_split_join", "Econf.C14_split_total", "Econf.C14_ext_comments", "Econf.C14_ext_values", "Econf.C14_copy_fields", "Econf.C14_comment_lines_length", "Econf.C14_write_value", "Econf.Struct.C14_fixed_buffers"]
 SHRINK = False
 RULE = ("every field kind (key, value, continuation line, section, comment before, comment after, file name, directory name, option "
-        "string, econftool --delimiters) x lengths {1, BUFSIZ-2..BUFSIZ+2, 2*BUFSIZ, 64Ki, 1Mi (thorough)} and {NAME_MAX-1, NAME_MAX}, "
+        "string, the definitions joined under JOIN_SAME_ENTRIES with an empty one among them, econftool --delimiters) x lengths {1, BUFSIZ-2..BUFSIZ+2, 2*BUFSIZ, 64Ki, 1Mi (thorough)} and {NAME_MAX-1, NAME_MAX}, "
         "{PATH_MAX-2..PATH_MAX+2} for names and paths (read), drop-ins of two layers whose names of NAME_MAX-1 / NAME_MAX bytes differ in one byte (with and without suffix), NAME_MAX-6..NAME_MAX and PATH_MAX-8..PATH_MAX-1 (written and read back) x every API that copies the field (string and extended getter, merge, write, "
         "re-read, error location); lengths and FNV hashes of what comes back are compared with what went in; distinct by (field, length)")
 BUFSIZ = 8192
@@ -182,6 +182,22 @@ def name_scenario(sid, kind, n):
     return s
 
 
+def join_scenario(sid, n):
+    """JOIN_SAME_ENTRIES: the definitions of a key are joined into one value, whatever their lengths; an empty definition starts
+    the value afresh"""
+    s = Scenario(sid, {"field": "joined", "n": n})
+    R = lambda c: run_token(n, c)
+    content = "+".join([h(b"k="), R(0x41), h(b"\nk="), R(0x42), h(b"\nk=\nk="), R(0x43), h(b"\nk=D\nj="), R(0x45), h(b"\nj="), R(0x46), h(b"\nj=G\n")])
+    s.add("F", h(b"/etc/p/cfg.conf"), content)
+    s.add("NEW", 0, "opt", h(b"JOIN_SAME_ENTRIES=1"))
+    s.add("RC", 0, h(b"p"), h(b"/usr/etc"), h(b"cfg"), h(b"conf"), h(b"="), h(b"#"))
+    s.add("GET", 0, "sum", "-", h(b"k"))
+    s.add("GET", 0, "sum", "-", h(b"j"))
+    # (the text after an empty definition starts with the line break of the join: the model's C15_join_since_empty)
+    s.meta["want"] = [b"\n" + b"C" * n + b"\nD", b"E" * n + b"\n" + b"F" * n + b"\nG"]
+    return s
+
+
 LENS_Q = [1, BUFSIZ - 2, BUFSIZ - 1, BUFSIZ, BUFSIZ + 1, BUFSIZ + 2, 2 * BUFSIZ, 65536]
 FIELDS = ["value", "key", "section", "cb", "cb2", "ca", "cont", "line"]
 
@@ -192,6 +208,8 @@ def scenarios(tier, rng):
     for f in FIELDS:
         for n in lens:
             out.append(field_scenario("%s_%d" % (f, n), f, n))
+    for n in lens:
+        out.append(join_scenario("joined_%d" % n, n))
     for n in (NAME_MAX - 1, NAME_MAX):
         out.append(name_scenario("fn_%d" % n, "filename", n))
         out.append(name_scenario("dn_%d" % n, "dirname", n))
@@ -261,6 +279,11 @@ def oracle(s, lines):
             ks = [l for l in lines if l.startswith("keysum ")]
             if not ks or " g " + summ(n, 0x73) not in ks[0]:
                 return "section of %d bytes listed as %r" % (n, ks)
+        return None
+    if f == "joined":
+        want = ["new E0 obj", "rc E0 obj"] + ["get E0 len=%d fnv=%016x" % (len(w), fnv(w)) for w in m["want"]]
+        if lines[:4] != want:
+            return "definitions of %d bytes joined (JOIN_SAME_ENTRIES): %r, expected %r" % (n, lines[:4], want)
         return None
     if f in ("filename", "dirname"):
         if " E0 obj" not in lines[0]:
